@@ -321,6 +321,16 @@ fn matrix_case(item: u64, rng: &mut Rng, acc: &mut Acc) {
                         let st2 = Settings { stability: Some(t), debug: false, metadata: false };
                         acc.count("directed_tolerance_probes");
                         if let DecOutcome::Ok(d2) = decompose(&a, &st2) {
+                            if std::env::var("C16_DEBUG").is_ok() {
+                                // natural f64 evaluation of both norms
+                                let mut z = vec![vec![0.0f64; n]; n];
+                                for r in 0..n { for c in 0..n { for k in 0..n { z[r][c] += d2.inv[r][k] * a[k][c]; } if r == c { z[r][c] -= 1.0; } } }
+                                let colf: f64 = (0..n).map(|j| (0..n).map(|i| z[i][j] * z[i][j]).sum::<f64>().sqrt()).sum();
+                                let rowf: f64 = (0..n).map(|j| (0..n).map(|i| z[j][i] * z[j][i]).sum::<f64>().sqrt()).sum();
+                                let same_inv = d2.inv.iter().flatten().zip(d.inv.iter().flatten()).all(|(x, y)| x.to_bits() == y.to_bits());
+                                let sym = (0..n).all(|i| (0..n).all(|j| d2.inv[i][j].to_bits() == d2.inv[j][i].to_bits()));
+                                eprintln!("tol={:e} f64 col-norm={:e} f64 row-norm={:e} exact col={:e} row={:e} same_inverse={} inverse_symmetric={}", t, colf, rowf, dcol, drow, same_inv, sym);
+                            }
                             if let Some((why, dist)) = stability_violation(&a, &d2.inv, t) {
                                 acc.violate(
                                     item,
